@@ -486,7 +486,7 @@ const MMAPVEC_HDR: usize = 80; // magic u64, version u32, element_size u32, leng
 fn vals<T: El>(c: &mut Case, n: usize) -> Vec<T> { let k = c.rng.below(gen::INT_KINDS as u64) as u32; gen::ints_kind(&mut c.rng, k, n, u64::MAX).into_iter().map(T::mk).collect() }
 
 /// Random operation history on a fresh MmapVec; explicit sync() calls are the snapshot points.
-fn mmapvec_history<T: El>(c: &mut Case, path: &Path, preset_name: &str, big: bool, end_synced: bool, limit_sync: bool) -> Result<Hist, Fail> {
+fn mmapvec_history<T: El>(c: &mut Case, path: &Path, preset_name: &str, big: bool, end_synced: bool, limit_sync: bool, huge: bool) -> Result<Hist, Fail> {
     let cfg = preset(preset_name);
     let sow = cfg.sync_on_write;
     let mut v = match catch(|| MmapVec::<T>::create(path, cfg)) { Ok(Ok(v)) => v, Ok(Err(e)) => return Err(bad("create_err", format!("create failed: {e}"))), Err(p) => return Err(bad(&p.class(), format!("create panicked at {}: {}", p.loc, p.msg))) };
@@ -494,23 +494,34 @@ fn mmapvec_history<T: El>(c: &mut Case, path: &Path, preset_name: &str, big: boo
     let mut models: Vec<Vec<u8>> = vec![vec![]];
     let mut snaps: Vec<Snap> = Vec::new();
     let mut prog = String::new();
-    let nops = if sow { c.rng.urange(3, 8) } else { c.rng.urange(4, 16) };
+    // huge_ families: scripted history (op code, argument, sync afterwards) that crosses 65 536 / 131 072 live elements,
+    // changes the capacity while empty (reserve / shrink_to_fit / clear) and shrinks back
+    let script: Option<Vec<(u64, Option<usize>, bool)>> = if huge {
+        let r = c.rng.usize_below(5000);
+        let cap2 = *c.rng.pick(&[131_073usize, 196_609, 262_145]);
+        Some(vec![(21, Some(65_537), false), (11, None, true), (21, Some(65_536), true), (2, Some(65_535), true), (0, Some(1), false), (0, Some(2), true),
+            (22, None, false), (2, Some(65_536 + r), true), (7, Some(usize::MAX - 3), false), (11, None, true), (20, None, false), (11, None, true),
+            (21, Some(cap2), false), (9, Some(100_001 + r), true), (22, None, false), (8, Some(65_537), false), (5, Some(if sow { 5 } else { 300 }), true)])
+    } else { None };
+    let nops = if let Some(s) = &script { s.len() } else if sow { c.rng.urange(3, 8) } else { c.rng.urange(4, 16) };
     let mut last_sync_model = 0usize; let mut synced_at_end = false;
     macro_rules! okop { ($r:expr, $what:expr) => { match catch(|| $r) { Ok(Ok(x)) => x, Ok(Err(e)) => return Err(bad("op_err", format!("{} failed: {e} (program: {prog})", $what))), Err(p) => return Err(bad(&p.class(), format!("{} panicked at {}: {} (program: {prog})", $what, p.loc, p.msg))) } } }
     for opi in 0..nops {
-        let op = if opi == 0 { if big { 100 } else { 2 } } else { c.rng.below(15) };
+        let (op, arg, sync_after): (u64, Option<usize>, Option<bool>) = if let Some(s) = &script { (s[opi].0, s[opi].1, Some(s[opi].2)) } else if opi == 0 { (if big { 100 } else { 2 }, None, None) } else { (c.rng.below(15), None, None) };
         synced_at_end = false;
         match op {
             100 => { let n = if preset_name == "large" { 600_000 + c.rng.usize_below(400_000) } else { (70_000 / T::SZ) + c.rng.usize_below(30_000 / T::SZ + 1) }; let it = vals::<T>(c, n); prog.push_str(&format!("bulk{n};")); okop!(v.push_bulk_simd(&it), "push_bulk_simd"); cur.extend_from_slice(&it); models.push(el_bytes(&cur)); }
-            0 | 1 => { let k = 1 + c.rng.usize_below(if sow { 4 } else { 20 }); let it = vals::<T>(c, k); prog.push_str(&format!("push{k};")); for x in it { okop!(v.push(x), "push"); cur.push(x); models.push(el_bytes(&cur)); } }
-            2 | 3 | 4 => { let n = if c.rng.chance(1, 3) { *c.rng.pick(gen::LENS) % 3000 } else { c.rng.usize_below(200) }; let it = vals::<T>(c, n); prog.push_str(&format!("bulk{n};")); okop!(v.push_bulk_simd(&it), "push_bulk_simd"); cur.extend_from_slice(&it); models.push(el_bytes(&cur)); }
-            5 => { let n = c.rng.usize_below(if sow { 12 } else { 300 }); let it = vals::<T>(c, n); prog.push_str(&format!("extend{n};")); okop!(v.extend(it.clone().into_iter()), "extend");
+            0 | 1 => { let k = match arg { Some(a) => a, None => 1 + c.rng.usize_below(if sow { 4 } else { 20 }) }; let it = vals::<T>(c, k); prog.push_str(&format!("push{k};")); for x in it { okop!(v.push(x), "push"); cur.push(x); models.push(el_bytes(&cur)); } }
+            2 | 3 | 4 => { let n = match arg { Some(a) => a, None => if c.rng.chance(1, 3) { *c.rng.pick(gen::LENS) % 3000 } else { c.rng.usize_below(200) } }; let it = vals::<T>(c, n); prog.push_str(&format!("bulk{n};")); okop!(v.push_bulk_simd(&it), "push_bulk_simd"); cur.extend_from_slice(&it); models.push(el_bytes(&cur)); }
+            5 => { let n = match arg { Some(a) => a, None => c.rng.usize_below(if sow { 12 } else { 300 }) }; let it = vals::<T>(c, n); prog.push_str(&format!("extend{n};")); okop!(v.extend(it.clone().into_iter()), "extend");
                 for x in it { cur.push(x); if sow { models.push(el_bytes(&cur)); } } models.push(el_bytes(&cur)); }
             6 => { let k = 1 + c.rng.usize_below(6); prog.push_str(&format!("pop{k};")); for _ in 0..k { let got = match catch(|| v.pop()) { Ok(g) => g, Err(p) => return Err(bad(&p.class(), format!("pop panicked at {}", p.loc))) }; let want = cur.pop(); if got != want { return Err(bad("inmem_diverged", format!("pop returned {got:?} want {want:?} (program: {prog})"))); } models.push(el_bytes(&cur)); } }
-            7 => { let k = c.rng.usize_below(cur.len() + 1).min(500); prog.push_str(&format!("popbulk{k};")); let got = okop!(v.pop_bulk_simd(k), "pop_bulk_simd"); let want = cur.split_off(cur.len() - k); if got != want { return Err(bad("inmem_diverged", format!("pop_bulk_simd({k}) returned wrong elements (program: {prog})"))); } models.push(el_bytes(&cur)); }
-            8 => { let n = c.rng.usize_below(cur.len() + 3); prog.push_str(&format!("trunc{n};")); okop!(v.truncate(n), "truncate"); cur.truncate(n); models.push(el_bytes(&cur)); }
-            9 => { let n = if c.rng.bool() { c.rng.usize_below(cur.len() + 1) } else { cur.len() + c.rng.usize_below(400) }; let x = T::mk(c.rng.next()); prog.push_str(&format!("resize{n};")); okop!(v.resize(n, x), "resize"); cur.resize(n, x); models.push(el_bytes(&cur)); }
+            7 => { let k = match arg { Some(a) => cur.len().saturating_sub(usize::MAX - a), None => c.rng.usize_below(cur.len() + 1).min(500) }; prog.push_str(&format!("popbulk{k};")); let got = okop!(v.pop_bulk_simd(k), "pop_bulk_simd"); let want = cur.split_off(cur.len() - k); if got != want { return Err(bad("inmem_diverged", format!("pop_bulk_simd({k}) returned wrong elements (program: {prog})"))); } models.push(el_bytes(&cur)); }
+            8 => { let n = match arg { Some(a) => a, None => c.rng.usize_below(cur.len() + 3) }; prog.push_str(&format!("trunc{n};")); okop!(v.truncate(n), "truncate"); cur.truncate(n); models.push(el_bytes(&cur)); }
+            9 => { let n = match arg { Some(a) => a, None => if c.rng.bool() { c.rng.usize_below(cur.len() + 1) } else { cur.len() + c.rng.usize_below(400) } }; let x = T::mk(c.rng.next()); prog.push_str(&format!("resize{n};")); okop!(v.resize(n, x), "resize"); cur.resize(n, x); models.push(el_bytes(&cur)); }
             10 => { if c.rng.chance(1, 3) { prog.push_str("clear;"); okop!(v.clear(), "clear"); cur.clear(); } else { let n = c.rng.usize_below(2000); prog.push_str(&format!("reserve{n};")); okop!(v.reserve(n), "reserve"); } models.push(el_bytes(&cur)); }
+            20 => { prog.push_str("clear;"); okop!(v.clear(), "clear"); cur.clear(); models.push(el_bytes(&cur)); }
+            21 => { let n = arg.unwrap_or(0); prog.push_str(&format!("reserve{n};")); okop!(v.reserve(n), "reserve"); models.push(el_bytes(&cur)); }
             11 => { prog.push_str("shrink;"); okop!(v.shrink_to_fit(), "shrink_to_fit"); models.push(el_bytes(&cur)); }
             _ => { // in-place modification of existing elements (makes old and new blocks differ at the same offsets)
                 if cur.is_empty() { prog.push_str("nop;"); } else {
@@ -525,7 +536,8 @@ fn mmapvec_history<T: El>(c: &mut Case, path: &Path, preset_name: &str, big: boo
                 models.push(el_bytes(&cur)); }
         }
         let last = opi + 1 == nops;
-        if (last && end_synced) || (!last && c.rng.chance(1, 3)) {
+        let do_sync = match sync_after { Some(b) => b || (last && end_synced), None => (last && end_synced) || (!last && c.rng.chance(1, 3)) };
+        if do_sync {
             prog.push_str("SYNC;");
             okop!(v.sync(), "sync");
             if el_bytes(v.as_slice()) != *models.last().unwrap() || v.len() != cur.len() { return Err(bad("inmem_diverged", format!("in-memory content differs from the model before reopen (len {} want {}; program: {prog})", v.len(), cur.len()))); }
@@ -569,12 +581,14 @@ fn mmapvec_tags(c: &mut Case, states: &mut [FState], esz: usize) {
 }
 
 fn mmapvec_case_t<T: El>(c: &mut Case, fam: &str, preset_name: &str, tname: &str) -> Res {
+    let (huge, fam) = match fam.strip_prefix("huge_") { Some(f) => (true, f), None => (false, fam) };
+    if huge { c.input_str("huge", "1"); }
     let td = tempfile::tempdir().map_err(|e| bad("harness_io", e.to_string()))?;
     let path = td.path().join("vec.mmap");
-    let big = if preset_name == "large" { c.rng.chance(1, 2) } else { c.rng.chance(1, 4) };
+    let big = !huge && if preset_name == "large" { c.rng.chance(1, 2) } else { c.rng.chance(1, 4) };
     let end_synced = fam != "clean" || c.rng.chance(2, 3);
     c.input_str("elem", tname); c.input_str("preset", preset_name); c.input_str("big", &big.to_string());
-    let h = mmapvec_history::<T>(c, &path, preset_name, big, end_synced, fam == "sync_fsize_limit")?;
+    let h = mmapvec_history::<T>(c, &path, preset_name, big, end_synced, fam == "sync_fsize_limit", huge)?;
     let mut rng = c.rng.fork();
     let mut states = if fam == "clean" { clean_states(&h) } else if fam == "sync_fsize_limit" {
         h.extra.iter().map(|(d, b)| FState { desc: d.clone(), bytes: b.clone(), lo: 0, hi: h.models.len(), clean: false, solo: false }).collect()
@@ -600,6 +614,23 @@ fn mmapvec_case_t<T: El>(c: &mut Case, fam: &str, preset_name: &str, tname: &str
 fn mmapvec_case(c: &mut Case, fam: &str, preset_name: &str) -> Res {
     let t = if preset_name == "large" { "u8" } else { *c.rng.pick(&["u8", "u32", "u64", "u64", "b3"]) };
     match t { "u8" => mmapvec_case_t::<u8>(c, fam, preset_name, t), "u32" => mmapvec_case_t::<u32>(c, fam, preset_name, t), "u64" => mmapvec_case_t::<u64>(c, fam, preset_name, t), _ => mmapvec_case_t::<[u8; 3]>(c, fam, preset_name, t) }
+}
+
+
+/// `huge_<family>` generator names select the large-input variant of a family
+fn split_huge(fam: &str) -> (bool, &str) { match fam.strip_prefix("huge_") { Some(f) => (true, f), None => (false, fam) } }
+/// sizes just above 16-bit / 17-bit / 20-bit limits
+const HUGE_SIZES: &[usize] = &[65_535, 65_536, 65_537, 131_071, 131_072, 131_073, 131_074, 196_609, 262_145, 1_048_575, 1_048_576, 1_048_577];
+/// byte shapes for large payloads: dominant symbol, all equal, long runs / short period (> 1000:1), X c X d, random
+fn huge_bytes(r: &mut Rng, len: usize) -> (&'static str, Vec<u8>) {
+    match r.below(6) {
+        0 => { let dom = r.next() as u8; let pct = 60 + r.below(40); ("dominant", (0..len).map(|_| if r.below(100) < pct { dom } else { r.next() as u8 }).collect()) }
+        1 => ("all_equal", vec![r.next() as u8; len]),
+        2 => { let mut v = Vec::with_capacity(len); while v.len() < len { let b = r.next() as u8; let n = 20_000 + r.usize_below(80_000); for _ in 0..n.min(len - v.len()) { v.push(b); } } ("long_runs", v) }
+        3 => { let p = 1 + r.usize_below(7); let pat = r.bytes(p); ("short_period", (0..len).map(|i| pat[i % p]).collect()) }
+        4 => { let h = (len.saturating_sub(2)) / 2; let x = r.bytes(h); let mut v = x.clone(); v.push(b'c'); v.extend_from_slice(&x); v.push(b'd'); v.resize(len, 0xEE); ("xcxd", v) }
+        _ => ("uniform", r.bytes(len)),
+    }
 }
 
 // =============================================================================================
@@ -650,11 +681,12 @@ fn io_ref_content(bytes: &[u8], types: &str) -> Vec<u8> {
 }
 
 fn io_case(c: &mut Case, fam: &str) -> Res {
+    let (force_huge, fam) = split_huge(fam);
     let td = tempfile::tempdir().map_err(|e| bad("harness_io", e.to_string()))?;
     let path = td.path().join("out.bin");
     let init = *c.rng.pick(&[1usize, 16, 100, 1000, 4000, 4096, 4097, 5000, 70_000]);
-    let huge = c.rng.chance(1, 25);
-    let init = if huge { 1_100_000 } else { init };
+    let huge = force_huge || c.rng.chance(1, 25);
+    let init = if force_huge { *c.rng.pick(&[65_535usize, 65_537, 131_073, 1_048_575, 1_048_577, 1_100_000]) } else if huge { 1_100_000 } else { init };
     c.input_str("initial_size", &init.to_string());
     let mut o = match MemoryMappedOutput::create(&path, init) { Ok(o) => o, Err(e) => return Err(bad("create_err", format!("create({init}) failed: {e}"))) };
     let mut model = vec![0u8; init]; let mut pos = 0usize; let mut types = String::new(); let mut prog = String::new();
@@ -721,6 +753,19 @@ fn types_min_len(_t: &str) -> usize { 0 }
 // =============================================================================================
 // target: ZReorderMapBuilder -> ZReorderMap::open
 // =============================================================================================
+/// > 13 200 entries (encoded body > 64 KiB, optionally > 128 KiB): mostly single entries, plus runs longer than 65 536 / 131 072
+fn reorder_values_huge(c: &mut Case, sign: i64) -> Vec<usize> {
+    const MAXV: usize = 0x7F_FFFF_FFFF;
+    let entries = *c.rng.pick(&[13_200usize, 13_300, 14_000, 26_300, 27_000, 40_000]) + c.rng.usize_below(50);
+    let long_at = [c.rng.usize_below(entries), c.rng.usize_below(entries)];
+    let mut v: Vec<usize> = Vec::with_capacity(entries + 300_000);
+    for e in 0..entries {
+        let base = 1_000_000 + c.rng.usize_below(MAXV - 2_000_000);
+        let run = if e == long_at[0] { 65_536 + c.rng.usize_below(3) } else if e == long_at[1] { 131_072 + c.rng.usize_below(3) } else if c.rng.chance(1, 50) { 2 + c.rng.usize_below(200) } else { 1 };
+        for k in 0..run { v.push(if sign > 0 { base + k } else { base - k }); }
+    }
+    v
+}
 fn reorder_values(c: &mut Case, sign: i64) -> Vec<usize> {
     let mut v: Vec<usize> = Vec::new();
     let target = match c.rng.below(5) { 0 => c.rng.usize_below(4), 1 => 1 + c.rng.usize_below(40), 2 => 900 + c.rng.usize_below(600), _ => 1 + c.rng.usize_below(400) };
@@ -734,12 +779,13 @@ fn reorder_values(c: &mut Case, sign: i64) -> Vec<usize> {
     v
 }
 fn reorder_case(c: &mut Case, fam: &str) -> Res {
+    let (huge, fam) = split_huge(fam);
     let td = tempfile::tempdir().map_err(|e| bad("harness_io", e.to_string()))?;
     let path = td.path().join("reorder.map");
     let mut snaps = Vec::new(); let mut models: Vec<Vec<u8>> = Vec::new();
     for ver in 0..2 {
         let sign: i64 = if c.rng.bool() { 1 } else { -1 };
-        let vals = reorder_values(c, sign);
+        let vals = if huge { reorder_values_huge(c, sign) } else { reorder_values(c, sign) };
         let mut raw = Vec::new(); for x in &vals { raw.extend_from_slice(&(*x as u64).to_le_bytes()); }
         c.input_str(&format!("sign{ver}"), &sign.to_string()); c.input(&format!("values{ver}"), &raw);
         let r = catch(|| -> zipora::error::Result<()> { let mut b = ZReorderMapBuilder::new(&path, vals.len(), sign)?; for &x in &vals { b.push(x)?; } b.finish() });
@@ -757,17 +803,22 @@ fn reorder_case(c: &mut Case, fam: &str) -> Res {
 // target: ZipOffsetBlobStore save_to_file / load_from_file
 // =============================================================================================
 fn zipoffset_case(c: &mut Case, fam: &str) -> Res {
+    let (huge, fam) = split_huge(fam);
     let td = tempfile::tempdir().map_err(|e| bad("harness_io", e.to_string()))?;
     let path = td.path().join("store.zo");
     let mut snaps = Vec::new(); let mut models: Vec<Vec<u8>> = Vec::new(); let mut added = 0usize;
     for ver in 0..2 {
         let cfg = match c.rng.below(4) { 0 => ZipOffsetBlobStoreConfig::default(), 1 => ZipOffsetBlobStoreConfig::performance_optimized(), 2 => ZipOffsetBlobStoreConfig::compression_optimized(), _ => ZipOffsetBlobStoreConfig { compress_level: 0, checksum_level: 0, ..ZipOffsetBlobStoreConfig::default() } };
         c.input_str(&format!("cfg{ver}"), &format!("{}/{}", cfg.compress_level, cfg.checksum_level));
-        let n = c.rng.usize_below(30);
-        let recs: Vec<Vec<u8>> = (0..n).map(|_| gen::bytes_any(&mut c.rng, 600).1).collect();
+        let n = if huge { 2 + c.rng.usize_below(3) } else { c.rng.usize_below(30) };
+        let recs: Vec<Vec<u8>> = (0..n).map(|_| if huge { let l = *c.rng.pick(&HUGE_SIZES[..9]); huge_bytes(&mut c.rng, l).1 } else { gen::bytes_any(&mut c.rng, 600).1 }).collect();
         for r in &recs { c.input("rec", r); }
         let r = catch(|| -> zipora::error::Result<ZipOffsetBlobStore> { let mut b = ZipOffsetBlobStoreBuilder::with_config(cfg)?; for r in &recs { b.add_record(r)?; } b.finish() });
-        let store = match r { Ok(Ok(s)) => s, Ok(Err(e)) => return Err(bad("op_err", format!("builder failed: {e}"))), Err(p) => return Err(bad(&p.class(), format!("builder panicked at {}", p.loc))) };
+        let store = match r { Ok(Ok(s)) => s,
+            // huge records: a refusal by the builder (e.g. the 12-bit offset width of compression_optimized cannot index records >= 4 KiB) is an Err on the
+            // write side; the property conditions on a successful write
+            Ok(Err(_)) if huge => { c.note("builder_refused", 1); c.set_nontrivial(false); return Ok(()); }
+            Ok(Err(e)) => return Err(bad("op_err", format!("builder failed: {e}"))), Err(p) => return Err(bad(&p.class(), format!("builder panicked at {}", p.loc))) };
         added += n;
         // the model is what the in-memory store presents at save time
         let m = canon_blobs(&store).map_err(|e| bad("inmem_read_err", e))?;
@@ -796,9 +847,10 @@ fn dict_probes(c: &mut Case, texts: &[Vec<u8>]) -> Vec<Vec<u8>> {
     p
 }
 fn sadict_case(c: &mut Case, fam: &str) -> Res {
+    let (huge, fam) = split_huge(fam);
     let td = tempfile::tempdir().map_err(|e| bad("harness_io", e.to_string()))?;
     let path = td.path().join("dict.bin"); let aux = td.path().join("probes.bin");
-    let texts: Vec<Vec<u8>> = (0..2).map(|_| dict_text(c, 5000)).collect();
+    let texts: Vec<Vec<u8>> = if huge { (0..2).map(|_| { let n = *c.rng.pick(&[65_535usize, 65_537, 131_073]) + c.rng.usize_below(3); let (k, t) = huge_bytes(&mut c.rng, n); c.input_str("shape", k); t }).collect() } else { (0..2).map(|_| dict_text(c, 5000)).collect() };
     let probes = dict_probes(c, &texts); write_probes(&aux, &probes);
     let mut snaps = Vec::new(); let mut models: Vec<Vec<u8>> = Vec::new();
     for (ver, t) in texts.iter().enumerate() {
@@ -817,10 +869,11 @@ fn sadict_case(c: &mut Case, fam: &str) -> Res {
     single_file_case(c, fam, &h, td.path(), &mk, None)
 }
 fn dictzip_case(c: &mut Case, fam: &str) -> Res {
+    let (huge, fam) = split_huge(fam);
     let td = tempfile::tempdir().map_err(|e| bad("harness_io", e.to_string()))?;
     let path = td.path().join("dz.dict"); let aux = td.path().join("probes.bin");
-    let texts: Vec<Vec<u8>> = (0..2).map(|_| dict_text(c, 3000)).collect();
-    let mut probes = dict_probes(c, &texts); probes.push(texts[0].clone());
+    let texts: Vec<Vec<u8>> = if huge { (0..2).map(|_| { let n = *c.rng.pick(&[65_537usize, 70_000]); let k = *c.rng.pick(&[10u32, 5, 9]); gen::bytes_kind(&mut c.rng, k, n) }).collect() } else { (0..2).map(|_| dict_text(c, 3000)).collect() };
+    let mut probes = dict_probes(c, &texts); probes.push(texts[0][..texts[0].len().min(70_000)].to_vec());
     write_probes(&aux, &probes);
     let mut snaps = Vec::new(); let mut models: Vec<Vec<u8>> = Vec::new();
     let external = c.rng.bool(); c.input_str("external_dictionary", &external.to_string());
@@ -881,6 +934,7 @@ fn plain_partial_name_pattern() -> Option<String> {
 struct DState { desc: String, files: DirSnap, lo: usize, hi: usize, clean: bool, #[allow(dead_code)] solo: bool }
 
 fn plain_case(c: &mut Case, fam: &str) -> Res {
+    let (huge, fam) = split_huge(fam);
     let td = tempfile::tempdir().map_err(|e| bad("harness_io", e.to_string()))?;
     let sdir = td.path().join("store");
     let mut store = PlainBlobStore::new(&sdir).map_err(|e| bad("op_err", format!("new: {e}")))?;
@@ -888,13 +942,13 @@ fn plain_case(c: &mut Case, fam: &str) -> Res {
     let mut models: Vec<Vec<u8>> = vec![plain_model(&recs)];
     let mut snaps: Vec<(DirSnap, usize)> = vec![(snap_dir(&sdir), 0)];      // (files, model index) after every operation
     let mut puts: Vec<(usize, u32)> = Vec::new();                           // (snapshot index after the put, id)
-    let nops = c.rng.urange(2, 12); let mut prog = String::new();
+    let nops = if huge { c.rng.urange(2, 4) } else { c.rng.urange(2, 12) }; let mut prog = String::new();
     for _ in 0..nops {
         match c.rng.below(10) {
             0 | 1 if !recs.is_empty() => { let ids: Vec<u32> = recs.keys().cloned().collect(); let id = *c.rng.pick(&ids); prog.push_str(&format!("rm{id};"));
                 match catch(|| store.remove(id)) { Ok(Ok(())) => {} Ok(Err(e)) => return Err(bad("op_err", format!("remove({id}) failed: {e}"))), Err(p) => return Err(bad(&p.class(), format!("remove panicked at {}", p.loc))) } recs.remove(&id); }
             2 => { prog.push_str("reopen;"); store = PlainBlobStore::new(&sdir).map_err(|e| bad("op_err", format!("reopen in writer: {e}")))?; }
-            _ => { let (k, d) = { let max = if c.rng.chance(1, 6) { 9000 } else { 700 }; gen::bytes_any(&mut c.rng, max) }; c.input(&format!("blob_{}", gen::byte_kind_name(k)), &d);
+            _ => { let (kn, d): (String, Vec<u8>) = if huge { let l = *c.rng.pick(HUGE_SIZES); let (k, d) = huge_bytes(&mut c.rng, l); (k.to_string(), d) } else { let max = if c.rng.chance(1, 6) { 9000 } else { 700 }; let (k, d) = gen::bytes_any(&mut c.rng, max); (gen::byte_kind_name(k).to_string(), d) }; c.input(&format!("blob_{kn}"), &d);
                 let id = match catch(|| store.put(&d)) { Ok(Ok(id)) => id, Ok(Err(e)) => return Err(bad("op_err", format!("put failed: {e}"))), Err(p) => return Err(bad(&p.class(), format!("put panicked at {}", p.loc))) };
                 prog.push_str(&format!("put{}->{id};", d.len()));
                 if recs.contains_key(&id) { return Err(bad("id_reused_live", format!("put returned id {id} which is still live ({prog})"))); }
@@ -906,8 +960,8 @@ fn plain_case(c: &mut Case, fam: &str) -> Res {
     if fam == "put_fsize_limit" {
         // the writer itself is interrupted: put() under a file-size limit smaller than the blob
         for round in 0..3 {
-            let d = { let n = 2 + c.rng.usize_below(3000); let k = c.rng.below(gen::BYTE_KINDS as u64) as u32; gen::bytes_kind(&mut c.rng, k, n) };
-            let lim = *c.rng.pick(&[0usize, 1, d.len() / 2, d.len() - 1]);
+            let d = if huge { let l = *c.rng.pick(HUGE_SIZES); huge_bytes(&mut c.rng, l).1 } else { let n = 2 + c.rng.usize_below(3000); let k = c.rng.below(gen::BYTE_KINDS as u64) as u32; gen::bytes_kind(&mut c.rng, k, n) };
+            let lim = if huge { *c.rng.pick(&[65_535usize, 65_536, d.len() / 2, d.len() - 1]) } else { *c.rng.pick(&[0usize, 1, d.len() / 2, d.len() - 1]) };
             c.input(&format!("limited_blob{round}_limit{lim}"), &d);
             let r = match catch(|| with_fsize_limit(lim as u64, || store.put(&d))) { Ok(r) => r, Err(p) => return Err(bad(&p.class(), format!("put under file-size limit panicked at {}: {}", p.loc, p.msg))) };
             prog.push_str(&format!("put{}@limit{lim}->{};", d.len(), if r.is_ok() { "Ok" } else { "Err" }));
@@ -939,7 +993,7 @@ fn plain_case(c: &mut Case, fam: &str) -> Res {
         match fam {
             "newest_trunc" => {
                 add(format!("record {id} missing (put not started)"), before.clone());
-                let mut lens: BTreeSet<usize> = BTreeSet::new(); for l in [0usize, 1, 2, n / 2, n.saturating_sub(1), 4095, 4096, 4097, 8192] { if l < n { lens.insert(l); } } for _ in 0..4 { if n > 0 { lens.insert(rng.usize_below(n)); } }
+                let mut lens: BTreeSet<usize> = BTreeSet::new(); for l in [0usize, 1, 2, n / 2, n.saturating_sub(1), 4095, 4096, 4097, 8192, 65_535, 65_536, 65_537, 131_072, 1_048_576] { if l < n { lens.insert(l); } } for _ in 0..4 { if n > 0 { lens.insert(rng.usize_below(n)); } }
                 if let Some(pn) = &pname { for l in lens { let mut f = before.clone(); f.insert(pn.clone(), data[..l].to_vec()); add(format!("record {id} cut to {l} of {n} bytes, left as file '{pn}'"), f); } }
                 c.tag("plain_partial_newest_record");
             }
@@ -992,11 +1046,20 @@ impl Iterator for FaultIter {
     }
 }
 fn extsort_case(c: &mut Case, fam: &str) -> Res {
+    let (huge, fam) = split_huge(fam);
     use zipora::algorithms::{ReplaceSelectSort, ReplaceSelectSortConfig};
     let td = tempfile::tempdir().map_err(|e| bad("harness_io", e.to_string()))?;
     let nmax = if c.rng.chance(1, 8) { 900 } else { 300 }; let n = 20 + c.rng.usize_below(nmax);
-    let kind = *c.rng.pick(&[3u32, 3, 2, 1, 8, 5]); let input: Vec<u64> = { let mut v = gen::ints_kind(&mut c.rng, kind, n, u64::MAX); if c.rng.chance(1, 6) { v.reverse(); } v };
-    let mem_items = 2 + c.rng.usize_below(30) + n / 25;
+    let kind = *c.rng.pick(&[3u32, 3, 2, 1, 8, 5]); let mut input: Vec<u64> = { let mut v = gen::ints_kind(&mut c.rng, kind, n, u64::MAX); if c.rng.chance(1, 6) { v.reverse(); } v };
+    let mut mem_items = 2 + c.rng.usize_below(30) + n / 25;
+    if huge {
+        // (a) many runs (> 256 run files), (b) > 65 536 / > 10^5 elements in a few long ascending blocks (run files > 1 MiB, long merge), (c) one run of > 65 536 equal keys
+        match c.rng.below(3) {
+            0 => { let n = 600 + c.rng.usize_below(80); input = (0..n).map(|_| c.rng.next()).collect(); mem_items = 4 + c.rng.usize_below(60); c.input_str("huge_shape", "many_runs"); }
+            1 => { let blocks = 2 + c.rng.usize_below(4); let per = (*c.rng.pick(&[65_537usize, 100_001, 131_073])) / blocks + 1; input = Vec::new(); for b in 0..blocks { let start = c.rng.below(1 << 40); for i in 0..per { input.push(start + (i as u64) * 3 + b as u64); } } mem_items = 16 + c.rng.usize_below(2000); c.input_str("huge_shape", "long_blocks"); }
+            _ => { let n = 65_537 + c.rng.usize_below(40_000); let k = c.rng.next(); input = (0..n).map(|i| if i % 20_000 == 19_999 { k.wrapping_sub(1 + (i as u64 % 7)) } else { k }).collect(); mem_items = 8 + c.rng.usize_below(500); c.input_str("huge_shape", "dominant_key"); }
+        }
+    }
     let raw: Vec<u8> = input.iter().flat_map(|x| x.to_le_bytes()).collect(); c.input("input", &raw); c.input_str("kind", gen::int_kind_name(kind)); c.input_str("mem_items", &mem_items.to_string());
     let cfg = ReplaceSelectSortConfig { memory_buffer_size: mem_items * 8, temp_dir: td.path().to_path_buf(), use_secure_memory: false, compress_temp_files: false, merge_ways: 16, cleanup_temp_files: true };
     let cut_frac = match c.rng.below(6) { 0 => (0, 1), 1 => (1, 2), 2 => (1, 0), 3 => (7, 0), 4 => (9, 10), _ => (c.rng.below(100), 100) };
@@ -1044,4 +1107,21 @@ pub fn run(ctx: &mut Ctx) {
     for fam in file_fams { for idx in 0..ctx.n(6, 120) as u64 { ctx.case("sa_dict", fam, idx, |c| sadict_case(c, fam)); } }
     for fam in ["clean", "trunc", "extend_zero"] { for idx in 0..ctx.n(3, 40) as u64 { ctx.case("dictzip", fam, idx, |c| dictzip_case(c, fam)); } }
     for fam in ["clean", "run_trunc"] { for idx in 0..ctx.n(15, 400) as u64 { ctx.case("extsort", fam, idx, |c| extsort_case(c, fam)); } }
+    // ---- huge_ families: large structures (> 65 536 elements / > 64 KiB .. MiB payloads / > 13 200 reorder entries / > 256 sort runs)
+    for (tid, pname, _, _) in presets {
+        for fam in ["huge_clean", "huge_trunc", "huge_sync_fsize_limit"] {
+            for idx in 0..ctx.n(1, 8) as u64 {
+                ctx.case(&format!("mmapvec/{tid}"), fam, idx, |c| {
+                    let p = if pname.is_empty() { format!("small:{}:{}:{}", *c.rng.pick(&[0usize, 1, 2, 16, 100]), *c.rng.pick(&[1100u64, 1500, 1618, 2000, 3000]), c.rng.chance(1, 4) as u8) } else { pname.to_string() };
+                    mmapvec_case(c, fam, &p) });
+            }
+        }
+    }
+    for fam in ["huge_clean", "huge_trunc"] { for idx in 0..ctx.n(2, 20) as u64 { ctx.case("io_mmap", fam, idx, |c| io_case(c, fam)); } }
+    for fam in ["huge_clean", "huge_newest_trunc", "huge_put_fsize_limit"] { for idx in 0..ctx.n(2, 20) as u64 { ctx.case("plain", fam, idx, |c| plain_case(c, fam)); } }
+    for (fam, q, t) in [("huge_clean", 4, 40), ("huge_trunc", 2, 20)] { for idx in 0..ctx.n(q, t) as u64 { ctx.case("reorder", fam, idx, |c| reorder_case(c, fam)); } }
+    for idx in 0..ctx.n(1, 5) as u64 { ctx.case("zipoffset", "huge_clean", idx, |c| zipoffset_case(c, "huge_clean")); }
+    for (fam, q, t) in [("huge_clean", 2, 12), ("huge_trunc", 1, 8)] { for idx in 0..ctx.n(q, t) as u64 { ctx.case("sa_dict", fam, idx, |c| sadict_case(c, fam)); } }
+    // (dictzip: a dictionary build over >= 64 KiB of training data costs ~17 s per case; not run, the file format is the sa_dict one)
+    for fam in ["huge_clean", "huge_run_trunc"] { for idx in 0..ctx.n(4, 40) as u64 { ctx.case("extsort", fam, idx, |c| extsort_case(c, fam)); } }
 }
